@@ -14,6 +14,8 @@ A case is a flowsheet:
     psort e=3,4 ( u1 ( u0 u2 r5 ) )   probe: build this Network from the real units and call .sort(ends)
     pdfs 4 e=3 u=0,1,2     probe: find_paths_with_and_without_recycle(stream 4, ends, units) on the real objects
 (stream ids: the streams of the `edge` lines in order, then the remaining ports unit by unit, inlets first)
+    outside 2              the last 2 units of the `units` line belong to the flowsheet but are NOT handed to
+                           from_units (it gets a section of the flowsheet: streams from / to them are feeds / products)
     rewire                 starts another round on the SAME unit and stream objects: the `edge` / `order` lines that
                            follow describe the new connectivity; the adapter empties every port and re-pipes the
                            existing stream objects (a stream keeps its role — product, feed, internal, same source
@@ -35,7 +37,9 @@ LEAN_MODULES = ['ThermoVerif.Props.C19', 'ThermoVerif.Props.C19Pipeline']
 RULE = ('histories of 1-3 rounds on the same unit and stream objects (build, re-pipe, build again: two units of equal '
         'ports swapped, a stream end moved, a stream added or removed); each round: connected flowsheets of 2-10 units with 1-3 inlet and outlet ports each, several feeds (with different '
         'F_mass) and products, 0-3 back-edges such that every unit still reaches a product, handed to '
-        'Network.from_units in every / sampled orders; exhaustive part: every connected simple DAG on <= 4 (quick) / '
+        'Network.from_units in every / sampled orders (quick: every order for a quarter of the flowsheets with <= 4 units, '
+        '24 orders for 5-6 units; thorough: every order up to 6 units); 15 % of the cases hand from_units a section of the '
+        'flowsheet (1-2 units left out); exhaustive part: every connected simple DAG on <= 4 (quick) / '
         '5 (thorough) units with in/out degree <= 3 in every unit order; a case is non-trivial when it has at least one '
         'stream between two units; distinct = distinct (ports, edges, F_mass, order)')
 ASSUMPTIONS = [
@@ -45,6 +49,9 @@ ASSUMPTIONS = [
     'the model answers err=recycle exactly when a walk of the real code reports a recycle',
     'hypotheses of the theorems, monitored by the driver on every flowsheet (answer of the graph line): every stream '
     'ends in a given unit or nowhere (Graph.SinksOK), one outlet list per unit, every unit has an outlet',
+    'the exact order of the final path is not compared (any order that respects material flow is as good): the '
+    'fromunits line compares units with multiplicity, recycles, warning count and checker verdict; the exact-path '
+    'agreement rate is reported in the evidence (pipeline_exact_path_agreement)',
     'the recycle part of the assembly (join_recycle_network, _insert_recycle_network, _add_linear_network, '
     'reduce_recycles) is not modelled; on cyclic flowsheets its output is validated per run by validNetwork',
     'Network.units of every (sub-)network equals the units of its flattened path when Network.sort runs (monitored)',
@@ -71,6 +78,7 @@ class Recorder:
         self.last_warn = 0
         self.in_from_units = False
         self.fu_recycle = False
+        self.foreign = False
 
     def sid(self, s):
         return s.n
@@ -82,7 +90,8 @@ class Recorder:
         out = ['(']
         for i in nw.path:
             if isinstance(i, net.Network): out.extend(self.tokens(i, monitor))
-            else: out.append(f'u{self.idx[i]}')
+            elif i in self.idx: out.append(f'u{self.idx[i]}')
+            else: out.append('x'); self.foreign = True      # not one of the given units
         r = nw.recycle
         if r:
             rs = [r] if hasattr(r, 'sink') else list(r)
@@ -132,7 +141,8 @@ def setup():
             rec.depth -= 1
         nwarn = sum(1 for x in w if WARN_TEXT in str(x.message))
         after = rec.tokens(self)
-        rec.lines.append((f'sort e={e} ' + ' '.join(before), ' '.join(after) + f' warn={nwarn}'))
+        if 'x' not in before and 'x' not in after:
+            rec.lines.append((f'sort e={e} ' + ' '.join(before), ' '.join(after) + f' warn={nwarn}'))
         rec.last_warn = nwarn
         if nwarn: rec.tags.add('sort:warned')
         if before != after: rec.tags.add('sort:changed')
@@ -199,12 +209,14 @@ def clean_edges(shape, edges):
 
 def parse_case(ops):
     """→ shape, fmass, rounds = [(edges, order, probe lines)]"""
-    shape, fmass = [], {}
+    shape, fmass, outside = [], {}, 0
     raw = [[[], None, []]]
     for line in ops:
         t = line.split()
         if t[0] == 'units':
             shape = [tuple(int(x) for x in w.split(':')) for w in t[1:]]
+        elif t[0] == 'outside':
+            outside = int(t[1])
         elif t[0] == 'rewire':
             raw.append([[], None, []])
         elif t[0] == 'edge':
@@ -217,19 +229,26 @@ def parse_case(ops):
         elif t[0] in ('psort', 'pdfs'):
             raw[-1][2].append(line)
     n = len(shape)
+    m = n - outside if 0 <= outside < n else n          # units 0..m-1 are handed to from_units
     rounds = []
     for edges, order, probes in raw:
-        if order is None or sorted(order) != list(range(n)): order = list(range(n))
+        if order is None or sorted(order) != list(range(m)): order = list(range(m))
         rounds.append((clean_edges(shape, edges), order, probes))
-    return shape, fmass, rounds
+    return shape, fmass, rounds, m
+
+
+def induced(shape, edges, m):
+    """the section made of units 0..m-1"""
+    return shape[:m], [e for e in edges if e[0][0] < m and e[1][0] < m]
 
 
 def round_ops(edges, order, probes=()):
     return [f'edge {a[0]}.{a[1]} {b[0]}.{b[1]}' for a, b in edges] + list(probes) + ['order ' + ','.join(map(str, order))]
 
 
-def make_case(shape, edges, fmass, order, more_rounds=(), probes=()):
+def make_case(shape, edges, fmass, order, more_rounds=(), probes=(), outside=0):
     ops = ['units ' + ' '.join(f'{a}:{b}' for a, b in shape)]
+    if outside: ops.append(f'outside {outside}')
     ops += [f'fmass {k[0]}.{k[1]} {v}' for k, v in sorted(fmass.items()) if v]
     ops += round_ops(edges, order, probes)
     for e, o in more_rounds:
@@ -346,27 +365,101 @@ def loops(nw, acc):
     return acc
 
 
+def nested_recycles(nw, acc):
+    """the recycles carried by the network and its sub-networks (twin of allRecycles)"""
+    r = nw.recycle
+    if r: acc.extend([r] if hasattr(r, 'sink') else list(r))
+    for i in nw.path:
+        if isinstance(i, net.Network): nested_recycles(i, acc)
+    return acc
+
+
 def check_network(units, nw):
-    """→ (verdict, cyclic).  Observes the real Network and the real units only."""
+    """→ (every failing clause in the checker's order, cyclic).  Observes the real Network and the real units only.
+    Each clause is judged on its own, so that one failure cannot hide another."""
     flat = flatten(nw.path)
     R = nw.get_all_recycles()
+    given = set(units)
     edges = real_edges(units)
     rm = reach_map(units, edges)
     cyclic = any(u in rm[u] for u in units)
-    if set(flat) != set(units): return 'units', cyclic
+    if set(flat) != given: return ['units'], cyclic
+    bad = []
+    if len(flat) != len(set(flat)): bad.append('dup')
+    if set(R) != set(nested_recycles(nw, [])): bad.append('recycle-set')
     pos = {}
-    for k, u in enumerate(flat): pos.setdefault(u, k)
+    for k, u in enumerate(flat): pos.setdefault(u, k)        # first occurrence
     if cyclic:
-        if not R: return 'no-recycle', cyclic
+        if not R: bad.append('no-recycle')
+        else:
+            cut = [(u, s._sink) for u in units for s in u._outs if s._sink in given and s not in R]
+            rm2 = reach_map(units, cut)
+            if any(u in rm2[u] for u in units): bad.append('recycles-do-not-cut')
         lp = loops(nw, [])
-        for a, b in edges:
-            if not pos[a] < pos[b] and not any(a in l and b in l for l in lp): return 'backward', cyclic
-        return 'valid', cyclic
-    if len(flat) != len(set(flat)): return 'dup', cyclic
-    for a, b in edges:
-        if not pos[a] < pos[b]: return 'order', cyclic
-    if R: return 'recycle-on-dag', cyclic
-    return 'valid', cyclic
+        if any(not pos[a] < pos[b] and not (a in rm[b] and any(a in l and b in l for l in lp)) for a, b in edges):
+            bad.append('backward')
+    else:
+        if any(not pos[a] < pos[b] for a, b in edges): bad.append('order')
+        if R: bad.append('recycle-on-dag')
+    return bad, cyclic
+
+
+def dup_in_parent_and_subnetwork(nw):
+    """every repeated unit stands once as an item of a network and again inside ONE of that network's
+    sub-networks (the shape left by join_recycle_network's nested branch), and nowhere else"""
+    flat = flatten(nw.path)
+    cnt = collections.Counter(flat)
+    dups = {u for u, c in cnt.items() if c > 1}
+    if not dups or any(cnt[u] != 2 for u in dups): return False
+    explained = set()
+    def walk(n_):
+        direct = [i for i in n_.path if not isinstance(i, net.Network)]
+        for c in n_.path:
+            if isinstance(c, net.Network):
+                inside = flatten(c.path)
+                for u in direct:
+                    if u in dups and inside.count(u) == 1: explained.add(u)
+                walk(c)
+    walk(nw)
+    return explained == dups
+
+
+def dup_in_recycle_less_sibling(nw):
+    """every repeated unit occurs exactly twice, in two sub-networks that are items of the same network, one of
+    which carries no recycle (the shape left by _insert_recycle_network when it absorbs a sub-network)"""
+    flat = flatten(nw.path)
+    cnt = collections.Counter(flat)
+    dups = {u for u, c in cnt.items() if c > 1}
+    if not dups or any(cnt[u] != 2 for u in dups): return False
+    explained = set()
+    def walk(n_):
+        subs = [c for c in n_.path if isinstance(c, net.Network)]
+        for a in subs:
+            for b in subs:
+                if a is not b and not b.recycle:
+                    fa, fb = flatten(a.path), flatten(b.path)
+                    for u in dups:
+                        if fa.count(u) == 1 and fb.count(u) == 1: explained.add(u)
+        for c in subs: walk(c)
+    walk(nw)
+    return explained == dups
+
+
+def cyclomatic(units, edges, rm):
+    """sum over the non-trivial strongly connected components of (streams - units + 1)"""
+    comp, k = {}, 0
+    for u in units:
+        if u in comp: continue
+        if u in rm[u]:
+            for v in units:
+                if v is u or (v in rm[u] and u in rm[v]): comp[v] = k
+            k += 1
+    total = 0
+    for c in range(k):
+        vs = [u for u in units if comp.get(u) == c]
+        es = [1 for a, b in edges if comp.get(a) == c and comp.get(b) == c]
+        total += len(es) - len(vs) + 1
+    return total
 
 
 def in_quantifier(shape, edges):
@@ -439,62 +532,93 @@ def slug(s):
     return re.sub(r'[^A-Za-z0-9]+', '-', s).strip('-')[:60]
 
 
-def run_round(rnd, rec, units, streams, shape, edges, order, probes, failures, tags):
+def canon(tokens, warn, verdict):
+    """what the property can see of a network (compared), then the exact nested path (reported only)"""
+    us = sorted(int(t[1:]) for t in tokens if t[0] == 'u')
+    rs = sorted(int(t[1:]) for t in tokens if t[0] == 'r')
+    return (f'units={",".join(map(str, us))} R={",".join(map(str, rs))} warn={warn} verdict={verdict} | '
+            + ' '.join(tokens))
+
+
+def run_round(rnd, rec, units, streams, shape, edges, order, probes, failures, tags, m):
     """one Network.from_units on the current connectivity of the real objects"""
     global REC
-    n = len(shape)
+    given = units[:m]
+    gshape, gedges = induced(shape, edges, m)
+    n = m
     where = '' if rnd == 0 else f' (round {rnd}: the same units after re-piping)'
-    rec.lines.append((graph_line(units, streams), 'ok'))
-    inq = in_quantifier(shape, edges)
+    if m < len(units): where += f' (a section: {len(units) - m} more unit(s) of the flowsheet are not given)'; tags.append('section')
+    rec.lines.append((graph_line(given, streams), 'ok'))
+    inq = in_quantifier(gshape, gedges)
     nw, exc = None, None
     REC = rec
     rec.last_warn = 0
+    rec.foreign = False
     try:
         with warnings.catch_warnings():
             warnings.simplefilter('ignore')
-            for line in probes: run_probe(line, units, streams, rec)
+            for line in probes: run_probe(line, given, streams, rec)
             rec.last_warn = 0; rec.fu_recycle = False; rec.in_from_units = True
-            nw = net.Network.from_units([units[i] for i in order])
+            nw = net.Network.from_units([given[i] for i in order])
     except Exception as e:      # the property promises a path: an exception is a failure of it
         exc = e
     finally:
         REC = None
         rec.in_from_units = False
-    # the whole pipeline is modelled as long as no walk finds a recycle: the final network must be reproduced;
-    # as soon as a walk of the real code reports a recycle the model must answer err=recycle
+    edges_r = real_edges(given)
+    rm = reach_map(given, edges_r)
+    cyclic = any(u in rm[u] for u in given)
+    kind = 'cyclic' if cyclic else 'acyclic'
+    tags.append(kind)
+    if cyclic: tags.append(f'cyclomatic={min(cyclomatic(given, edges_r, rm), 4)}')
+    verdict, toks = None, None
+    if nw is not None:
+        rec.foreign = False
+        toks = rec.tokens(nw)
+        clauses = ['units'] if rec.foreign else check_network(given, nw)[0]
+        verdict = clauses[0] if clauses else 'valid'
+    # the whole pipeline is modelled as long as no walk finds a recycle: then the model's network must agree with
+    # the real one in everything the property talks about (units with multiplicity, recycles, warning, verdict);
+    # the exact order is reported, not compared.  As soon as a walk of the real code reports a recycle the model
+    # must answer err=recycle.
     fm = ','.join(str(int(x.F_mass)) for x in streams)
     if rec.fu_recycle: want = 'err=recycle'; tags.append('pipeline:recycle')
     elif nw is None: want = 'raised'
-    else: want = ' '.join(rec.tokens(nw)) + f' warn={rec.last_warn}'; tags.append('pipeline:modelled')
+    elif rec.foreign: want = 'foreign-item-in-path'
+    else: want = canon(toks, rec.last_warn, verdict); tags.append('pipeline:modelled')
     rec.lines.append((f'fromunits o={",".join(map(str, order))} f={fm}', want))
     last = len(rec.lines)
     fails = []
     if nw is not None:
-        verdict, cyclic = check_network(units, nw)
-        R = nw.get_all_recycles()
-        rec.lines.append((f'valid R={rec.ids(R)} ' + ' '.join(rec.tokens(nw)), verdict))
-        kind = 'cyclic' if cyclic else 'acyclic'
-        tags.append(kind); tags.append(f'{kind}:{verdict}')
+        if not rec.foreign:
+            rec.lines.append((f'valid R={rec.ids(nw.get_all_recycles())} ' + ' '.join(toks), f'{verdict} all={",".join(clauses)}'))
+        tags.append(f'{kind}:{verdict}')
         if any(isinstance(i, net.Network) for i in nw.path): tags.append('result:nested')
-        if verdict != 'valid':
-            sig = f'{kind}:{verdict}'
-            what = f'Network.from_units on a {kind} flowsheet of {n} units{where}: checker verdict `{verdict}`'
-            if verdict == 'units':
+        if nw.recycle: tags.append('result:top-recycle')
+        for clause in clauses:            # one failure per failing clause: a listed finding cannot hide another clause
+            sig = f'{kind}:{clause}'
+            what = f'Network.from_units on a {kind} flowsheet of {n} units{where}: checker clause `{clause}` fails'
+            if clause == 'units':
                 flat = set(flatten(nw.path))
-                missing = {k for k, u in enumerate(units) if u not in flat}
-                extra = [u for u in flat if u not in set(units)]
-                if not extra and missing == set(range(n)) - fed_units(shape, edges):
+                missing = {k for k, u in enumerate(given) if u not in flat}
+                extra = [u for u in flat if u not in set(given)]
+                if not extra and missing == set(range(n)) - fed_units(gshape, gedges):
                     sig += ':not-reachable-from-a-feed'
                     what += f'; units {sorted(missing)} are missing from the path (no feed reaches them)'
                 else:
                     what += f'; missing units {sorted(missing)}, foreign items {len(extra)}'
-            fails.append({'signature': sig, 'op_index': last, 'what': what + f'; path={" ".join(rec.tokens(nw))}'})
+            elif clause == 'dup' and cyclic and dup_in_parent_and_subnetwork(nw):
+                sig += ':unit-in-network-and-in-its-subnetwork'
+                what += '; a unit is an item of a network and is listed again inside one of its sub-networks'
+            elif clause == 'dup' and cyclic and dup_in_recycle_less_sibling(nw):
+                sig += ':units-repeated-in-a-recycle-less-sibling-subnetwork'
+                what += '; units of a loop are listed again in a sibling sub-network that carries no recycle'
+            if m < len(units) and sig.count(':') == 1: sig += ':section'
+            fails.append({'signature': sig, 'op_index': last, 'what': what + f'; path={" ".join(toks)}'})
     else:
-        edges_r = real_edges(units)
-        rm = reach_map(units, edges_r)
-        kind = 'cyclic' if any(u in rm[u] for u in units) else 'acyclic'
-        tags.append(kind); tags.append(f'{kind}:raises')
-        fails.append({'signature': f'{kind}:raises:{type(exc).__name__}:{slug(str(exc))}', 'op_index': last,
+        tags.append(f'{kind}:raises')
+        fails.append({'signature': f'{kind}:raises:{type(exc).__name__}:{slug(str(exc))}' + (':section' if m < len(units) else ''),
+                      'op_index': last,
                       'what': f'Network.from_units raised {type(exc).__name__}({str(exc)[:80]!r}) on a {kind} '
                               f'flowsheet of {n} units{where}'})
     if inq: failures.extend(fails)
@@ -502,25 +626,41 @@ def run_round(rnd, rec, units, streams, shape, edges, order, probes, failures, t
 
 
 def run_impl(case: Case) -> ImplResult:
-    shape, fmass, rounds = parse_case(case.ops)
+    shape, fmass, rounds, m = parse_case(case.ops)
     n = len(shape)
     if n == 0:
         return ImplResult(model_in=[], outs=[], failures=[], tags=['empty'], nontrivial=None)
     units, streams = build(shape, rounds[0][0], fmass)
-    rec = Recorder(units)
+    rec = Recorder(units[:m])
     failures, tags = [], []
     prev = None
     for rnd, (edges, order, probes) in enumerate(rounds):
         if rnd:
             rewire(units, streams, shape, prev, edges)
             tags.append('rewired')
-        run_round(rnd, rec, units, streams, shape, edges, order, probes, failures, tags)
+        run_round(rnd, rec, units, streams, shape, edges, order, probes, failures, tags, m)
         prev = edges
-    tags.append(f'n={n}'); tags.append(f'rounds={len(rounds)}')
+    tags.append(f'n={m}'); tags.append(f'rounds={len(rounds)}'); tags.append(f'orders-of-flowsheet={case.meta.get("orders", 1)}')
     tags.extend(sorted(rec.tags))
-    key = (tuple(shape), tuple(sorted(fmass.items())), tuple((tuple(e), tuple(o)) for e, o, _ in rounds))
+    key = (tuple(shape), m, tuple(sorted(fmass.items())), tuple((tuple(e), tuple(o)) for e, o, _ in rounds))
     return ImplResult(model_in=[l for l, _ in rec.lines], outs=[o for _, o in rec.lines], failures=failures,
                       tags=tags, nontrivial=(key if any(e for e, _, _ in rounds) else None))
+
+
+def compare(impl_line, model_line):
+    """everything before ` | ` is compared exactly; after it comes the exact nested path, which the property does
+    not fix (any order that respects material flow is as good) — it is only counted (extra_evidence)"""
+    return impl_line.split(' | ')[0] == model_line.split(' | ')[0]
+
+
+def extra_evidence(executed, model_outs):
+    same = diff = 0
+    for (case, res), mo in zip(executed, model_outs):
+        for a, b in zip(res.outs, mo):
+            if ' | ' in a and ' | ' in b:
+                if a == b: same += 1
+                else: diff += 1
+    return {'pipeline_exact_path_agreement': {'same': same, 'different_but_equivalent_or_flagged': diff}}
 
 
 def disagree_signature(case, res, first):
@@ -611,7 +751,7 @@ def swap_units(edges, a, b):
     return [((m.get(x[0], x[0]), x[1]), (m.get(y[0], y[0]), y[1])) for x, y in edges]
 
 
-def mutate_edges(rng, shape, edges):
+def mutate_edges(rng, shape, edges, m=None):
     """another connectivity of the same units: swap two units of equal shape, move one end of a stream to a free
     port, add a stream (possibly a back-edge), remove one; None if nothing inside the quantifier was found"""
     n = len(shape)
@@ -634,7 +774,8 @@ def mutate_edges(rng, shape, edges):
             elif kind == 'remove' and len(es) > 1:
                 es.pop(rng.randrange(len(es)))
         es = [e for e in es if e[0][0] != e[1][0]]
-        if sorted(es) != sorted(edges) and clean_edges(shape, es) == es and in_quantifier(shape, es):
+        if sorted(es) != sorted(edges) and clean_edges(shape, es) == es and \
+                in_quantifier(*induced(shape, es, len(shape) if m is None else m)):
             # at most 3 streams against a topological order of the rest is not checked here: the generator
             # only ever adds one stream per step, so the count stays small
             return es
@@ -666,9 +807,32 @@ def small_dags(n):
             yield shape, edges
 
 
+def small_cyclic(n):
+    """every small DAG of `small_dags(n)` with one extra stream against the order (a back-edge j → i, j > i)"""
+    for shape, edges in small_dags(n):
+        for i_ in range(n):
+            for j_ in range(i_ + 1, n):
+                if shape[j_][1] >= 3 or shape[i_][0] >= 3: continue
+                sh = list(shape)
+                used_o = {a for a, _ in edges}; used_i = {b for _, b in edges}
+                # a sink unit keeps its product port, a source unit its feed port
+                po = max((p for (u, p) in used_o if u == j_), default=-1) + 1
+                pi = max((p for (u, p) in used_i if u == i_), default=-1) + 1
+                sh[j_] = (sh[j_][0], max(sh[j_][1], po + 1 + (1 if po == 0 else 0)))
+                sh[i_] = (max(sh[i_][0], pi + 1 + (1 if pi == 0 else 0)), sh[i_][1])
+                if sh[j_][1] > 3 or sh[i_][0] > 3: continue
+                es = edges + [((j_, po), (i_, pi))]
+                if in_quantifier(sh, es): yield sh, es
+
+
+def with_meta(case, norders):
+    case.meta['orders'] = norders if norders <= 6 else ('7-24' if norders <= 24 else '>24')
+    return case
+
+
 def generate(rng, tier, index, nworkers):
     b = budget(tier)
-    # ---- exhaustive part, dealt round-robin to the workers
+    # ---- exhaustive part, dealt round-robin to the workers: small DAGs and small one-loop flowsheets, every order
     nmax = 4 if tier == 'quick' else 5
     k = 0
     for n in range(2, nmax + 1):
@@ -681,11 +845,17 @@ def generate(rng, tier, index, nworkers):
                     if pairs:       # second round: the same units with two of them (equal ports) swapped
                         es = swap_units(edges, *pairs[k % len(pairs)])
                         if in_quantifier(shape, es): more = [(es, list(order))]
-                    yield make_case(shape, edges, {}, list(order), more)
+                    yield with_meta(make_case(shape, edges, {}, list(order), more), math.factorial(n))
+    for n in range(2, (3 if tier == 'quick' else 4) + 1):
+        for shape, edges in small_cyclic(n):
+            for order in itertools.permutations(range(n)):
+                k += 1
+                if k % nworkers == index:
+                    yield with_meta(make_case(shape, edges, {}, list(order)), math.factorial(n))
     # ---- random part
     share = max(1, b['cases'] // nworkers)
     produced = 0
-    perm_cap = 6 if tier == 'quick' else 720
+    perm_cap = 24 if tier == 'quick' else 720
     while produced < share:
         r = rng.random()
         n = rng.randint(2, 6) if r < 0.6 else rng.randint(7, 10)
@@ -693,20 +863,28 @@ def generate(rng, tier, index, nworkers):
         g = gen_random(rng, n, nback)
         if g is None: continue
         shape, edges, fmass = g
-        if n <= 6:
-            os_ = orders(rng, n, perm_cap if rng.random() < 0.25 else 3)
+        # a section of the flowsheet: the last 1-2 units are not handed to from_units
+        m = n
+        if n >= 3 and rng.random() < 0.15:
+            for kk in (rng.choice([1, 2]), 1):
+                if n - kk >= 2 and in_quantifier(*induced(shape, edges, n - kk)): m = n - kk; break
+        if m <= 6:
+            # every order (quick: up to 24, i.e. all for <= 4 units) for a quarter of the small flowsheets
+            os_ = orders(rng, m, perm_cap if rng.random() < 0.25 else 3)
         else:
-            os_ = orders(rng, n, 3)
+            os_ = orders(rng, m, 3)
+        gshape, gedges = induced(shape, edges, m)
         for o in os_:
             more, cur = [], edges
             if rng.random() < 0.6:
                 for _ in range(rng.choice([1, 1, 2])):
-                    nxt = mutate_edges(rng, shape, cur)
+                    nxt = mutate_edges(rng, shape, cur, m)
                     if nxt is None: break
                     o2 = list(o)
                     if rng.random() < 0.5: rng.shuffle(o2)
                     more.append((nxt, o2)); cur = nxt
-            yield make_case(shape, edges, fmass, o, more, gen_probes(rng, shape, edges))
+            probes = gen_probes(rng, shape, edges) if m == n else []
+            yield with_meta(make_case(shape, edges, fmass, o, more, probes, n - m), len(os_))
             produced += 1
 
 
@@ -728,6 +906,16 @@ def corpus():
         # findings (see fixes_proposed/C19-*.md): join order of recycle networks / a loop that no feed reaches
         C('units 2:1 2:2 3:3', 'edge 0.0 1.1', 'edge 1.0 2.0', 'edge 2.0 1.0', 'edge 1.1 0.1', 'order 2,0,1'),
         C('units 1:1 1:2', 'edge 0.0 1.0', 'edge 1.1 0.0', 'order 0,1'),
+        # a unit listed both in the outer path and inside the loop (fixes_proposed/C19-3.md)
+        C('units 3:3 3:3 2:2', 'fmass 1.2 2', 'fmass 2.1 2', 'edge 1.2 0.0', 'edge 2.1 0.2', 'edge 0.2 2.0', 'edge 0.1 1.1',
+          'order 2,1,0'),
+        # a section of a flowsheet: the third unit feeds the second but is not handed to from_units
+        C('units 1:1 2:1 1:1', 'outside 1', 'edge 0.0 1.0', 'edge 2.0 1.1', 'order 1,0'),
+        # units of a loop repeated in a recycle-less sibling sub-network (fixes_proposed/C19-4.md): complete flowsheet, section
+        C('units 2:3 1:3 2:1 1:3 1:2 3:1 3:1 1:3 2:2', 'edge 1.2 6.1', 'edge 3.1 6.0', 'edge 8.1 0.0', 'edge 6.0 8.1', 'edge 0.2 8.0',
+          'edge 8.0 3.0', 'edge 3.0 4.0', 'edge 0.1 2.1', 'edge 5.0 1.0', 'edge 2.0 0.1', 'edge 0.0 7.0'),
+        C('units 3:2 3:3 2:1 3:3 3:3', 'outside 1', 'edge 3.0 0.2', 'edge 4.1 2.0', 'edge 1.2 0.0', 'edge 1.0 2.1', 'edge 0.1 3.0',
+          'edge 2.0 1.2', 'edge 3.2 4.0', 'order 2,3,1,0'),
         # histories on the same objects: a train A → B → C, then B and C swapped, then swapped back
         C('units 1:1 1:1 1:1', 'edge 0.0 1.0', 'edge 1.0 2.0', 'order 0,1,2',
           'rewire', 'edge 0.0 2.0', 'edge 2.0 1.0', 'order 0,1,2',
@@ -743,11 +931,11 @@ def search(case, rng, budget_s):
     """near a disagreement: other unit orders of the same history, looking for an oracle failure"""
     import time
     t0 = time.time()
-    shape, fmass, rounds = parse_case(case.ops)
+    shape, fmass, rounds, m = parse_case(case.ops)
     n = len(shape)
     while n and time.time() - t0 < budget_s:
         def o():
-            x = list(range(n)); rng.shuffle(x); return x
-        c = make_case(shape, rounds[0][0], fmass, o(), [(e, o()) for e, _, _ in rounds[1:]], rounds[0][2])
+            x = list(range(m)); rng.shuffle(x); return x
+        c = make_case(shape, rounds[0][0], fmass, o(), [(e, o()) for e, _, _ in rounds[1:]], rounds[0][2], n - m)
         if run_impl(c).failures: return c
     return None
